@@ -31,7 +31,11 @@ TDequeued == /\ IsEvent("Dequeued") /\ sm[Trace[l].k] = Trace[l].r
              /\ \/ spc[Trace[l].k] = "write" /\ UNCHANGED vars
                 \/ spc[Trace[l].k] = "got" /\ SCheck(Trace[l].k) /\ spc'[Trace[l].k] = "write"
 TWriteError == IsEvent("WriteError") /\ SWrite(Trace[l].k) /\ sm[Trace[l].k] = Trace[l].r /\ spc'[Trace[l].k] = "requeue"
-TRequeued == IsEvent("Requeued") /\ SRequeue(Trace[l].k) /\ spc[Trace[l].k] = "requeue"
+\* the hook follows the channel send: the live sender may already have taken the request from the failure queue (and passed its
+\* LiveCheck) before this event is recorded -- then the requeue was a silent step and the event is an observation
+TRequeued == /\ IsEvent("Requeued")
+             /\ \/ SRequeue(Trace[l].k) /\ spc[Trace[l].k] = "requeue"
+                \/ spc[Trace[l].k] \in {"closing", "exited"} /\ UNCHANGED vars
 TTick == IsEvent("Tick") /\ spc[Trace[l].k] = "parked" /\ UNCHANGED vars           \* the ticker case fired; what it decides follows
 TTickExit == IsEvent("TickExit") /\ STick(Trace[l].k) /\ spc'[Trace[l].k] = "exited"
 TRecvExit == IsEvent("RecvExit") /\ RSignal(Trace[l].k)
@@ -52,7 +56,8 @@ STickStay(k) == STick(k) /\ spc'[k] = "top"
 TSilent == /\ \/ \E r \in Reqs : Enqueue(r) \/ ReConnectNoDial(r)      \* (ReConnect without a dial leaves no event: it may precede a Close that is recorded before the caller's EnqHook)
               \/ \E k \in Conns : STop(k) \/ SPollFail(k) \/ SInner(k) \/ SWake(k) \/ STickStay(k)
                                   \/ (SWrite(k) /\ spc'[k] = "top")
-                                  \/ (SRequeue(k) /\ spc[k] = "handover")
+                                  \/ (SRequeue(k) /\ spc[k] \in {"handover", "handover2"})
+                                  \/ (SRequeue(k) /\ spc[k] = "requeue" /\ l <= Len(Trace) /\ Trace[l].e \in {"LiveCheck", "Dequeued"})
                                   \/ (SRedial(k) /\ nconn' = nconn)
            /\ UNCHANGED l
 TraceNext == TCallStart \/ TDialed \/ TEnqHook \/ TClose \/ TLiveCheck \/ TDequeued \/ TWriteError \/ TRequeued \/ TTick \/ TTickExit \/ TRecvExit
